@@ -201,4 +201,29 @@ pub fn gen(_tier: &str, rng: &mut Rng, emit: &mut dyn FnMut(String)) {
             emit(format!("cmp {} {}", hex(a.as_bytes()), hex(b.as_bytes())));
         }
     }
+    // pair families beyond the small scope: every ASCII byte against the separator inside / at the end of a token,
+    // and long texts differing only at / after a word or block boundary
+    for c in 0u8..128 {
+        let c = c as char;
+        if c == '~' { continue; }
+        for (a, b) in [(format!("/foo/bar"), format!("/foo{c}bar/x")), (format!("/foo{c}"), format!("/foo/")), (format!("/{c}"), format!("//")), (format!("/a/{c}b"), format!("/a{c}/b"))] {
+            if crate::oracles::rfc_ptr(a.as_bytes()) && crate::oracles::rfc_ptr(b.as_bytes()) {
+                emit(format!("cmp {} {}", hex(a.as_bytes()), hex(b.as_bytes())));
+                emit(format!("cmp {} {}", hex(b.as_bytes()), hex(a.as_bytes())));
+            }
+        }
+    }
+    for (i, s) in boundary_texts(_tier).into_iter().enumerate() {
+        if i % 3 != 0 || s.len() < 8 { continue; }
+        let a = format!("/{}", crate::oracles::rfc_escape(&s));
+        let mut b = a.clone();
+        b.pop();
+        let c = format!("{b}c");
+        let d = format!("{a}/");
+        for (x, y) in [(&a, &a), (&a, &b), (&a, &c), (&c, &a), (&a, &d)] {
+            if crate::oracles::rfc_ptr(x.as_bytes()) && crate::oracles::rfc_ptr(y.as_bytes()) {
+                emit(format!("cmp {} {}", hex(x.as_bytes()), hex(y.as_bytes())));
+            }
+        }
+    }
 }
